@@ -477,8 +477,61 @@ def run_raw(ctx, keep):
             ctx.out.violation('correspondence', 'raw', case, got=impl, model=model)
 
 
+def make_dwarfinfo_both(dbg, eh, le, asz):
+    """one DWARFInfo holding a .debug_frame AND an .eh_frame section (the observation point the property names)"""
+    from elftools.dwarf.dwarfinfo import DWARFInfo, DebugSectionDescriptor, DwarfConfig
+    kw = dict(debug_info_sec=None, debug_aranges_sec=None, debug_abbrev_sec=None, debug_frame_sec=None, eh_frame_sec=None,
+              debug_str_sec=None, debug_loc_sec=None, debug_ranges_sec=None, debug_line_sec=None, debug_pubtypes_sec=None,
+              debug_pubnames_sec=None, debug_addr_sec=None, debug_str_offsets_sec=None, debug_line_str_sec=None,
+              debug_loclists_sec=None, debug_rnglists_sec=None, debug_sup_sec=None, gnu_debugaltlink_sec=None,
+              debug_types_sec=None)
+    kw['debug_frame_sec'] = DebugSectionDescriptor(io.BytesIO(dbg[0]), '.debug_frame', 0, len(dbg[0]), dbg[1])
+    kw['eh_frame_sec'] = DebugSectionDescriptor(io.BytesIO(eh[0]), '.eh_frame', 0, len(eh[0]), eh[1])
+    return DWARFInfo(config=DwarfConfig(little_endian=le, machine_arch='x64', default_address_size=asz), **kw)
+
+
+def impl_both(dbg, eh, le, asz, order):
+    """the accessors called in the given order ('d' = CFI_entries, 'e' = EH_CFI_entries) on ONE object"""
+    di = make_dwarfinfo_both(dbg, eh, le, asz)
+    out = []
+    for o in order:
+        es = di.CFI_entries() if o == 'd' else di.EH_CFI_entries()
+        out.append([canon_entry(e) for e in es])
+    return out
+
+
+def run_both(ctx, keep):
+    """one file normally carries both sections: each accessor must return ITS section's entries whatever was asked before"""
+    rng = ctx.rng('both')
+    dbg = [(s, r) for s, r in keep if r.get('wf') and not s['eh']]
+    ehs = [(s, r) for s, r in keep if r.get('wf') and s['eh']]
+    for _ in range(ctx.budget(120, 2500)):
+        if not dbg or not ehs:
+            return
+        sd, rd = rng.choice(dbg)
+        cands = [(s, r) for s, r in ehs if s['le'] == sd['le'] and s['asz'] == sd['asz']]
+        if not cands:
+            continue
+        se, re_ = rng.choice(cands)
+        order = rng.choice(['de', 'ed', 'dde', 'eed', 'ded', 'ede'])
+        d = (bytes.fromhex(rd['bytes']), sd['address'])
+        e = (bytes.fromhex(re_['bytes']), se['address'])
+        single = {'d': run_impl(lambda: impl_section(d[0], False, sd['le'], sd['asz'], sd['address'])),
+                  'e': run_impl(lambda: impl_section(e[0], True, se['le'], se['asz'], se['address']))}
+        impl = run_impl(lambda: impl_both(d, e, sd['le'], sd['asz'], order))
+        case = {'dbg': {'sec': sd, 'bytes': rd['bytes']}, 'eh': {'sec': se, 'bytes': re_['bytes']}, 'order': order}
+        ctx.out.count('both:' + order)
+        ctx.out.case(case)
+        if 'ok' not in single['d'] or 'ok' not in single['e']:
+            continue                      # judged by the 'sec' stream
+        want = {'ok': [single[o]['ok'] for o in order]}
+        if impl != want:
+            ctx.out.violation('property', 'both', case, expect=want, got=impl)
+
+
 def run(ctx):
     keep = run_sec(ctx)
+    run_both(ctx, keep)
     run_instrs(ctx)
     run_raw(ctx, keep)
 
@@ -499,6 +552,15 @@ def replay(ctx, payload):
                        property_fails=(got != want))
         else:
             res.update(impl=impl, model=r['model'], fails=(impl != r['model']))
+    elif v['stream'] == 'both':
+        sd, se, order = case['dbg']['sec'], case['eh']['sec'], case['order']
+        d = (bytes.fromhex(case['dbg']['bytes']), sd['address'])
+        e = (bytes.fromhex(case['eh']['bytes']), se['address'])
+        single = {'d': run_impl(lambda: impl_section(d[0], False, sd['le'], sd['asz'], sd['address'])),
+                  'e': run_impl(lambda: impl_section(e[0], True, se['le'], se['asz'], se['address']))}
+        impl = run_impl(lambda: impl_both(d, e, sd['le'], sd['asz'], order))
+        want = {'ok': [single[o].get('ok') for o in order]}
+        res.update(impl=impl, expect=want, fails=(impl != want))
     elif v['stream'] == 'instrs':
         rq = case['req']
         r = ctx.driver.ask(rq)
